@@ -112,7 +112,9 @@ def GROUP(target, spec, scope):
     if _spec_type not in (dict, list):
         raise BadSpec("Group mode expected dict, list, callable, or"
                       " aggregator, not: %r" % (spec,))
-    _spec_id = id(spec)
+    # (not the bare id: the tree also holds the sub-trees under their bucket
+    # keys, and a bucket key may be any value, the same integer included)
+    _spec_id = (ACC_TREE, id(spec))
     try:
         acc = tree[_spec_id]  # current accumulator
     except KeyError:
@@ -130,7 +132,6 @@ def GROUP(target, spec, scope):
                 tree[keyspec] = STOP
                 continue
             if key not in acc:
-                # TODO: guard against key == id(spec)
                 tree[key] = {}
             scope[ACC_TREE] = tree[key]
             result = recurse(valspec)
